@@ -18,7 +18,9 @@ LEVEL_TEXT = (
     "Bounded exploration: ordered pairs (existing, new) over Calculation, Deduplication, Projection, Selection, Slice, "
     "Sort and resolved PartialJoin (fixed operand a data leaf or a join identity) with generated parameters over a 4-7 tag "
     "universe, on target leaves of <= 5 rows (duplicates included); the existing operation may also be a user-defined "
-    "Reordering / RowFilter subclass (the two documented extension points), which commute() only knows by its flags.  Every reported commutation is decoded and evaluated: first then second (then the original "
+    "Reordering / RowFilter subclass (the two documented extension points: a stable sort, a value filter, an order- and "
+    "count-dependent position filter, a count-dependent threshold filter), which commute() only knows by its flags; the "
+    "fixed join operand may be a tree (deduplication then projection).  Every reported commutation is decoded and evaluated: first then second (then the original "
     "again if partial) must give the rows of existing-then-new in the same order, and both reported operations must be "
     "well-formed where they would be applied; a refusal must hand back the existing operation."
 )
